@@ -2,6 +2,7 @@ package hx
 
 import (
 	cb "github.com/alibaba/sentinel-golang/core/circuitbreaker"
+	"github.com/alibaba/sentinel-golang/core/config"
 	"github.com/alibaba/sentinel-golang/core/flow"
 	"github.com/alibaba/sentinel-golang/core/hotspot"
 	"github.com/alibaba/sentinel-golang/core/isolation"
@@ -18,7 +19,30 @@ func silenceLogger() {
 // Reset puts the virtual clock at ms (first!) and then restores every library global a case can
 // have touched: all rule managers, the resource-node map, the inbound node, breaker listeners,
 // injected system metrics. The outlier module is deliberately not cleared (see DESIGN, P20).
-func Reset(ms uint64) {
+// StatCfg is a process-wide statistic configuration: the resource nodes' array (GS buckets over GI ms) and their default
+// read-only metric (MS samples over MI ms).
+type StatCfg struct{ MS, MI, GS, GI uint32 }
+
+// DefaultStat is the built-in configuration; StatCfgs are legal configurations (the first one is the default).
+var DefaultStat = StatCfg{2, 1000, 20, 10000}
+var StatCfgs = []StatCfg{{2, 1000, 20, 10000}, {2, 2000, 20, 10000}, {1, 1000, 20, 10000}, {4, 2000, 20, 10000}, {2, 1000, 40, 10000}, {1, 1000, 10, 10000}, {5, 5000, 10, 10000}, {1, 2000, 5, 10000}}
+
+// Reset restores the default process-wide configuration and clears every module (see ResetCfg).
+func Reset(ms uint64) { ResetCfg(ms, DefaultStat, nil) }
+
+// ResetCfg installs a process-wide configuration (statistic geometry sc, then mutate applied to the entity), sets the
+// virtual clock and clears every module, so that every node and rule of the case is created under that configuration.
+func ResetCfg(ms uint64, sc StatCfg, mutate func(*config.Entity)) {
+	ent := config.NewDefaultConfig()
+	ent.Sentinel.Stat.MetricStatisticSampleCount, ent.Sentinel.Stat.MetricStatisticIntervalMs = sc.MS, sc.MI
+	ent.Sentinel.Stat.GlobalStatisticSampleCountTotal, ent.Sentinel.Stat.GlobalStatisticIntervalMsTotal = sc.GS, sc.GI
+	if mutate != nil {
+		mutate(ent)
+	}
+	if err := config.CheckValid(ent); err != nil {
+		panic("harness produced an illegal configuration: " + err.Error())
+	}
+	config.ResetGlobalConfig(ent)
 	Install()
 	C.SetMs(ms)
 	C.Advance = false
